@@ -501,3 +501,107 @@ func fieldLoadAnyName(v ssa.Value) (string, bool) {
 	}
 	return n, n != ""
 }
+
+// helperOf: fn is a package-level function that is only ever called directly (no go/defer, never used as a value)
+// and every one of its call sites lies in a function accepted by allowed (closures count for their parent):
+// it acts on behalf of its callers. Results are names as given by u.fname.
+func helpersOfAllowed(u *Universe, rels []string, allowed func(name string) bool) map[string]bool {
+	out := map[string]bool{}
+	ok := func(name string) bool { return allowed(name) || out[name] }
+	usedAsValue := map[*ssa.Function]bool{}
+	for _, rel := range rels {
+		for _, g := range u.srcFuncs(rel) {
+			for _, in := range instrsOf(g) {
+				for _, op := range in.Operands(nil) {
+					if f, isF := (*op).(*ssa.Function); isF {
+						if call, isCall := in.(ssa.CallInstruction); !isCall || call.Common().Value != ssa.Value(f) {
+							usedAsValue[f] = true
+						}
+					}
+				}
+			}
+		}
+	}
+	for changed := true; changed; {
+		changed = false
+		for _, rel := range rels {
+			for _, h := range u.srcFuncs(rel) {
+				name := u.fname(h)
+				if h.Parent() != nil || ok(name) || usedAsValue[h] {
+					continue
+				}
+				sites := u.staticCallers(h)
+				all := len(sites) > 0
+				for _, cs := range sites {
+					if _, plain := cs.(*ssa.Call); !plain {
+						all = false
+						break
+					}
+					root := cs.Parent()
+					for root.Parent() != nil {
+						root = root.Parent()
+					}
+					if !ok(u.fname(root)) {
+						all = false
+						break
+					}
+				}
+				if all {
+					out[name] = true
+					changed = true
+				}
+			}
+		}
+	}
+	return out
+}
+
+// paramRoots: the parameters (of this function or, following static call sites upwards, of its callers) that v
+// can come from; a nil entry stands for "something else"
+func paramRoots(u *Universe, v ssa.Value, depth int) []*ssa.Parameter {
+	seen := map[*ssa.Parameter]bool{}
+	var out []*ssa.Parameter
+	other := false
+	var walk func(v ssa.Value, depth int)
+	walk = func(v ssa.Value, depth int) {
+		for _, src := range allSources(v) {
+			par, ok := src.(*ssa.Parameter)
+			if !ok {
+				other = true
+				continue
+			}
+			fn := par.Parent()
+			sites := u.staticCallers(fn)
+			idx := -1
+			for i, q := range fn.Params {
+				if q == par {
+					idx = i
+				}
+			}
+			if depth == 0 || len(sites) == 0 || idx < 0 || fn.Parent() != nil {
+				if !seen[par] {
+					seen[par] = true
+					out = append(out, par)
+				}
+				continue
+			}
+			// stop at this parameter as well when the function is an anchor with many callers: prefer following only helpers
+			followed := false
+			for _, cs := range sites {
+				if idx < len(cs.Common().Args) {
+					walk(cs.Common().Args[idx], depth-1)
+					followed = true
+				}
+			}
+			if !followed && !seen[par] {
+				seen[par] = true
+				out = append(out, par)
+			}
+		}
+	}
+	walk(v, depth)
+	if other {
+		out = append(out, nil)
+	}
+	return out
+}
